@@ -627,20 +627,34 @@ def validate_parallel(module, cfg, traces, extra_files=None, jobs=None, chunk=30
     slice exactly as one sequential call would); results merged with global indices."""
     from concurrent.futures import ThreadPoolExecutor
     from harness import tlc
-    jobs = jobs or max(1, min(6, int(os.environ.get("VERIF_PROCS") or 16) // 2))
+    jobs = jobs or max(1, min(4, int(os.environ.get("VERIF_PROCS") or 16) // 2))
+    saved = os.environ.get("VERIF_TLC_XMX")
+    os.environ["VERIF_TLC_XMX"] = os.environ.get("VERIF_TRACE_XMX", "3g")     # trace validation needs little heap
     slices = [(off, traces[off:off + chunk]) for off in range(0, len(traces), chunk)] or [(0, [])]
 
     def one(sl):
         off, part = sl
-        tv = tlc.validate_traces(module, cfg, part, extra_files=extra_files, chunk=chunk, timeout=timeout)
+        try:
+            tv = tlc.validate_traces(module, cfg, part, extra_files=extra_files, chunk=chunk, timeout=timeout)
+        except tlc.TLCError:
+            # several JVMs at once on a loaded box: a JVM that could not start is a machinery hiccup, retried once
+            import time
+            time.sleep(5)
+            tv = tlc.validate_traces(module, cfg, part, extra_files=extra_files, chunk=chunk, timeout=timeout)
         for r in tv["rejected"]:
             r["index"] += off
         for dr in tv["drift"]:
             dr["index"] += off
         return tv
 
-    with ThreadPoolExecutor(jobs) as ex:
-        parts = list(ex.map(one, slices))
+    try:
+        with ThreadPoolExecutor(jobs) as ex:
+            parts = list(ex.map(one, slices))
+    finally:
+        if saved is None:
+            os.environ.pop("VERIF_TLC_XMX", None)
+        else:
+            os.environ["VERIF_TLC_XMX"] = saved
     out = {"accepted": 0, "rejected": [], "drift": [], "states": 0, "generated": 0, "wall_s": 0.0, "cmd": ""}
     for tv in parts:
         out["accepted"] += tv["accepted"]
